@@ -7,8 +7,8 @@
      fixed    - clip of rfbShowCursor/rfbHideCursor    (F15,  /repo commit 1a3b6d2)
      v_empty  - cursor without pixels in rfbSendCursorShape (F15b, /repo commit 0775c26)
      v_switch - SetEncodings that withdraws cursor-shape support (F15c, /repo commit 2b32386)
-     v_cache  - (use_shared) false = the tree, true = proposed repair notes/fix_C15_4.diff (F15d)
-   The correspondence run executes the model with all three = true. *)
+     v_cache  - (use_shared) built-in cursor shared by all screens (F15d, /repo commit 8f58d2d)
+   The correspondence run executes the model with all four = true. *)
 From LV Require Import Cursor.CursorDefs Cursor.CursorProofs Cursor.CursorSession Cursor.CursorSessionProofs
   Cursor.CursorMaskProofs Cursor.CursorShapeProofs Gen.Consts_C15.
 Local Open Scope Z_scope.
@@ -228,7 +228,7 @@ Theorem C15_shape_message_empty_old_refuted :
 Proof. exact shape_message_empty_refuted. Qed.
 
 (* ---------------------------------------------------------------- one cursor object, several screens *)
-(* C15_rich_cache_matches_format (proposed repair fix_C15_4: every screen has its own copy of the
+(* C15_rich_cache_matches_format (the tree since 8f58d2d: every screen has its own copy of the
    built-in cursor): the rich form a screen works with was derived for that screen's format *)
 Theorem C15_rich_cache_matches_format : forall tag fmt c c' r,
   tag <> None ->
@@ -236,7 +236,7 @@ Theorem C15_rich_cache_matches_format : forall tag fmt c c' r,
   make_rich_from_x fmt c = Some r.
 Proof. exact rich_cache_matches_format. Qed.
 
-(* F15d - the tree: the built-in cursor (static, shared by all screens of the process) keeps the rich
+(* record of F15d - before 8f58d2d: the built-in cursor (static, shared by all screens of the process) kept the rich
    form derived for the first screen; a screen with larger pixels reads beyond that buffer *)
 Theorem C15_rich_cache_old_refuted :
   exists c1 r1, ensure_rich fmt8 default_cursor = Some (c1, r1) /\
